@@ -2,7 +2,11 @@
 Helper lemmas for the closest-node iteration (`Model/Closest.lean`), used by `Props/C08.lean`:
 * closed form of `bucketOrder` (the `ClosestBucketsIter` state machine run to exhaustion),
   which is a permutation of `range 256` ordered by the relation `Before`;
-* the XOR-metric ordering lemma: buckets visited earlier hold strictly closer nodes.
+* the XOR-metric ordering lemma: buckets visited earlier hold strictly closer nodes;
+* the fold of `Table.closest` (invariant: visited buckets are final, the output is the
+  concatenation of the sorted visited buckets) and the `_aux` forms of the C08 theorems, which take
+  "`applyAt` preserves `TInv`" (`Proofs/KBucketLemmas.lean: applyAt_inv`) as the hypothesis `hA`;
+* `nodes_by_distances`: the collection loop is `take`, the application loop preserves `TInv`.
 -/
 import Mathlib.Data.Nat.Bitwise
 import Discv5Model.Model.KBucketSpec
@@ -343,5 +347,317 @@ theorem xor_xor_cancel (l a t : Nat) : (l ^^^ a) ^^^ (l ^^^ t) = a ^^^ t := by
 theorem xor_cancel_right {a b t : Nat} (h : a ^^^ t = b ^^^ t) : a = b := by
   have := congrArg (· ^^^ t) h
   simpa [Nat.xor_assoc] using this
+
+variable {V : Type}
+
+/-! ### sorting one bucket -/
+
+theorem sortByDist_perm (target : Nat) (ns : List (Node V)) : (sortByDist target ns).Perm ns :=
+  List.mergeSort_perm _ _
+
+theorem mem_sortByDist {target : Nat} {ns : List (Node V)} {n : Node V} :
+    n ∈ sortByDist target ns ↔ n ∈ ns := (sortByDist_perm target ns).mem_iff
+
+theorem sortByDist_le (target : Nat) (ns : List (Node V)) :
+    (sortByDist target ns).Pairwise (fun a b => (a.key ^^^ target) ≤ (b.key ^^^ target)) := by
+  have := List.pairwise_mergeSort
+    (le := fun (a b : Node V) => decide ((a.key ^^^ target) ≤ (b.key ^^^ target)))
+    (by intro a b c; simp only [decide_eq_true_eq]; exact Nat.le_trans)
+    (by intro a b; simp only [Bool.or_eq_true, decide_eq_true_eq]; exact Nat.le_total _ _) ns
+  exact this.imp (by intro a b; simp only [decide_eq_true_eq]; exact id)
+
+theorem sortByDist_lt (target : Nat) (ns : List (Node V)) (hn : (ns.map (·.key)).Nodup) :
+    (sortByDist target ns).Pairwise (fun a b => (a.key ^^^ target) < (b.key ^^^ target)) := by
+  have h1 := sortByDist_le target ns
+  have h2 : ((sortByDist target ns).map (·.key)).Nodup :=
+    ((sortByDist_perm target ns).map _).nodup_iff.2 hn
+  rw [List.nodup_iff_pairwise_ne, List.pairwise_map] at h2
+  refine (h1.and h2).imp ?_
+  rintro a b ⟨hle, hne⟩
+  apply Nat.lt_of_le_of_ne hle
+  intro e
+  exact hne (xor_cancel_right e)
+
+/-! ### basic facts about `applyAt` / `bump` -/
+
+theorem bucket_setBucket_ne (t : Table V) (i j : Nat) (b : Bucket V) (h : j ≠ i) :
+    (t.setBucket i b).bucket j = t.bucket j := by
+  simp only [Table.bucket, Table.setBucket, List.getD_eq_getElem?_getD]
+  rw [List.getElem?_set_ne (Ne.symm h)]
+
+theorem applyAt_bucket_ne (c : Cfg V) (now : Nat) (t : Table V) (i j : Nat) (h : j ≠ i) :
+    (Table.applyAt c now t i).bucket j = t.bucket j := by
+  unfold Table.applyAt
+  simp only []
+  split <;> exact bucket_setBucket_ne t i j _ h
+
+theorem applyAt_localKey (c : Cfg V) (now : Nat) (t : Table V) (i : Nat) :
+    (Table.applyAt c now t i).localKey = t.localKey := by
+  unfold Table.applyAt
+  simp only []
+  split <;> rfl
+
+theorem allNodes_eq (t : Table V) (h : t.buckets.length = 256) :
+    t.allNodes = (List.range 256).flatMap (fun i => (t.bucket i).nodes) := by
+  have : t.buckets = (List.range 256).map (fun i => t.bucket i) := by
+    apply List.ext_getElem
+    · simp [h]
+    · intro i h1 h2
+      simp [Table.bucket, List.getD_eq_getElem?_getD, h1]
+  unfold Table.allNodes
+  conv => lhs; rw [this]
+  rw [List.flatMap_map]
+
+theorem perm_flatMap_left {α β : Type} (l : List α) (f g : α → List β) (h : ∀ a ∈ l, (f a).Perm (g a)) :
+    (l.flatMap f).Perm (l.flatMap g) := by
+  induction l with
+  | nil => exact List.Perm.refl _
+  | cons a l ih =>
+    rw [List.flatMap_cons, List.flatMap_cons]
+    exact (h a List.mem_cons_self).append (ih fun b hb => h b (List.mem_cons_of_mem _ hb))
+
+/-! ### the fold of `Table.closest` -/
+
+def cStep (c : Cfg V) (now target : Nat) (acc : Table V × List (Node V)) (i : Nat) :
+    Table V × List (Node V) :=
+  let t1 := Table.applyAt c now acc.1 i
+  (t1, acc.2 ++ sortByDist target (t1.bucket i).nodes)
+
+theorem closest_eq_fold (c : Cfg V) (now : Nat) (t : Table V) (target : Nat) :
+    t.closest c now target =
+      (bucketOrder (t.localKey ^^^ target)).foldl (cStep c now target) (t.bump, []) := rfl
+
+theorem fold_spec (c : Cfg V) (now target : Nat)
+    (hA : ∀ t i, TInv c t → TInv c (Table.applyAt c now t i)) :
+    ∀ (l : List Nat) (t : Table V) (acc : List (Node V)), l.Nodup → TInv c t →
+      TInv c (l.foldl (cStep c now target) (t, acc)).1 ∧
+      (l.foldl (cStep c now target) (t, acc)).1.localKey = t.localKey ∧
+      (∀ j, j ∉ l → (l.foldl (cStep c now target) (t, acc)).1.bucket j = t.bucket j) ∧
+      (l.foldl (cStep c now target) (t, acc)).2 =
+        acc ++ l.flatMap (fun i =>
+          sortByDist target ((l.foldl (cStep c now target) (t, acc)).1.bucket i).nodes) := by
+  intro l
+  induction l with
+  | nil =>
+    intro t acc _ ht
+    exact ⟨ht, rfl, fun _ _ => rfl, by simp⟩
+  | cons i l ih =>
+    intro t acc hnd ht
+    rw [List.nodup_cons] at hnd
+    rw [List.foldl_cons]
+    have e : cStep c now target (t, acc) i =
+        (Table.applyAt c now t i,
+          acc ++ sortByDist target ((Table.applyAt c now t i).bucket i).nodes) := rfl
+    rw [e]
+    obtain ⟨h1, h2, h3, h4⟩ := ih (Table.applyAt c now t i)
+      (acc ++ sortByDist target ((Table.applyAt c now t i).bucket i).nodes) hnd.2 (hA t i ht)
+    refine ⟨h1, h2.trans (applyAt_localKey c now t i), ?_, ?_⟩
+    · intro j hj
+      rw [List.mem_cons, not_or] at hj
+      rw [h3 j hj.2, applyAt_bucket_ne c now t i j hj.1]
+    · rw [h4, List.flatMap_cons, h3 i hnd.1, List.append_assoc]
+
+
+theorem binv_mono (c : Cfg V) {tick tick' : Nat} {b : Bucket V} (h : BInv c tick b)
+    (hle : tick ≤ tick') : BInv c tick' b :=
+  { h with stampsLe := fun n hn => Nat.le_trans (h.stampsLe n hn) hle }
+
+theorem bump_tinv (c : Cfg V) (t : Table V) (h : TInv c t) : TInv c t.bump :=
+  { nBuckets := h.nBuckets
+    buckets := fun i hi => binv_mono c (h.buckets i hi) (Nat.le_succ _)
+    placed := h.placed
+    placedPending := h.placedPending }
+
+/-- Everything the property theorems need about the fold, for an order that is duplicate-free. -/
+theorem closest_core (c : Cfg V) (now : Nat) (t : Table V) (target : Nat)
+    (hA : ∀ t i, TInv c t → TInv c (Table.applyAt c now t i))
+    (h : TInv c t) (hnd : (bucketOrder (t.localKey ^^^ target)).Nodup) :
+    TInv c (t.closest c now target).1 ∧ (t.closest c now target).1.localKey = t.localKey ∧
+    (t.closest c now target).2 = (bucketOrder (t.localKey ^^^ target)).flatMap (fun i =>
+      sortByDist target ((t.closest c now target).1.bucket i).nodes) := by
+  rw [closest_eq_fold]
+  obtain ⟨h1, h2, _, h4⟩ := fold_spec c now target hA _ t.bump [] hnd (bump_tinv c t h)
+  exact ⟨h1, h2, by rw [h4]; rfl⟩
+
+theorem xor_lt_256 {a b : Nat} (ha : a < 2 ^ 256) (hb : b < 2 ^ 256) : a ^^^ b < 2 ^ 256 :=
+  Nat.xor_lt_two_pow ha hb
+
+theorem closest_complete_aux (c : Cfg V) (now : Nat) (t : Table V) (target : Nat)
+    (hA : ∀ t i, TInv c t → TInv c (Table.applyAt c now t i))
+    (h : TInv c t) (hl : t.localKey < 2 ^ 256) (ht : target < 2 ^ 256) :
+    (t.closest c now target).2.Perm (t.closest c now target).1.allNodes := by
+  have hD := xor_lt_256 hl ht
+  have hperm := closedOrder_perm _ hD
+  rw [← bucketOrder_eq_closed _ hD] at hperm
+  obtain ⟨h1, _, h3⟩ := closest_core c now t target hA h
+    (hperm.nodup_iff.2 List.nodup_range)
+  rw [allNodes_eq _ h1.nBuckets, h3]
+  exact (perm_flatMap_left _ _ _ (fun i _ => sortByDist_perm target _)).trans
+    (hperm.flatMap_right _)
+
+theorem closest_sorted_aux (c : Cfg V) (now : Nat) (t : Table V) (target : Nat)
+    (hA : ∀ t i, TInv c t → TInv c (Table.applyAt c now t i))
+    (h : TInv c t) (hl : t.localKey < 2 ^ 256) (ht : target < 2 ^ 256) :
+    (t.closest c now target).2.Pairwise
+      (fun a b => (a.key ^^^ target) < (b.key ^^^ target)) := by
+  have hD := xor_lt_256 hl ht
+  have hord := closedOrder_pairwise (t.localKey ^^^ target)
+  have hmem := fun i => @mem_closedOrder (t.localKey ^^^ target) i hD
+  rw [← bucketOrder_eq_closed _ hD] at hord hmem
+  obtain ⟨h1, h2, h3⟩ := closest_core c now t target hA h (hord.imp Before.ne)
+  rw [h3, List.pairwise_flatMap]
+  constructor
+  · intro i hi
+    exact sortByDist_lt target _ (h1.buckets i ((hmem i).1 hi)).keysNodup
+  · refine hord.imp_of_mem ?_
+    intro i j hi hj hb x hx y hy
+    rw [mem_sortByDist] at hx hy
+    have px := h1.placed i ((hmem i).1 hi) x hx
+    have py := h1.placed j ((hmem j).1 hj) y hy
+    rw [h2] at px py
+    have := xor_lt_of_before hb (msb_of_bucketIndex px) (msb_of_bucketIndex py)
+    rwa [xor_xor_cancel, xor_xor_cancel] at this
+
+theorem closest_eq_sorted_scan_aux (c : Cfg V) (now : Nat) (t : Table V) (target : Nat)
+    (hA : ∀ t i, TInv c t → TInv c (Table.applyAt c now t i))
+    (h : TInv c t) (hl : t.localKey < 2 ^ 256) (ht : target < 2 ^ 256) :
+    (t.closest c now target).2.map (·.key) =
+      ((t.closest c now target).1.allNodes.map (·.key)).mergeSort
+        (fun a b => decide ((a ^^^ target) ≤ (b ^^^ target))) := by
+  have hs := closest_sorted_aux c now t target hA h hl ht
+  have hp := closest_complete_aux c now t target hA h hl ht
+  apply List.Perm.eq_of_pairwise (le := fun a b => (a ^^^ target) ≤ (b ^^^ target))
+  · intro a b _ _ h1 h2
+    exact xor_cancel_right (Nat.le_antisymm h1 h2)
+  · rw [List.pairwise_map]
+    exact hs.imp Nat.le_of_lt
+  · have := List.pairwise_mergeSort
+      (le := fun (a b : Nat) => decide ((a ^^^ target) ≤ (b ^^^ target)))
+      (by intro a b c; simp only [decide_eq_true_eq]; exact Nat.le_trans)
+      (by intro a b; simp only [Bool.or_eq_true, decide_eq_true_eq]; exact Nat.le_total _ _)
+      ((t.closest c now target).1.allNodes.map (·.key))
+    exact this.imp (by intro a b; simp only [decide_eq_true_eq]; exact id)
+  · exact (hp.map _).trans (List.mergeSort_perm _ _).symm
+
+theorem closestPred_snd (c : Cfg V) (now : Nat) (t : Table V) (target : Nat) (pred : V → Bool) :
+    (t.closestPred c now target pred).2 =
+      (t.closest c now target).2.map (fun n => (n, pred n.value)) := rfl
+
+
+/-! ### `nodes_by_distances` -/
+
+theorem collectUpTo_eq (m : Nat) : ∀ (l acc : List (Node V)), acc.length < m →
+    collectUpTo m l acc = acc ++ l.take (m - acc.length) := by
+  intro l
+  induction l with
+  | nil => intro acc _; simp [collectUpTo]
+  | cons n ns ih =>
+    intro acc h
+    unfold collectUpTo
+    simp only []
+    by_cases hge : (acc ++ [n]).length ≥ m
+    · rw [if_pos hge]
+      simp only [List.length_append, List.length_cons, List.length_nil] at hge
+      have : m - acc.length = 1 := by omega
+      rw [this]
+      simp
+    · rw [if_neg hge, ih _ (by omega)]
+      simp only [List.length_append, List.length_cons, List.length_nil] at hge ⊢
+      have : m - acc.length = (m - (acc.length + 0 + 1)) + 1 := by omega
+      rw [this, List.take_succ_cons]
+      simp
+
+theorem applyForDistances_spec (c : Cfg V) (now m : Nat)
+    (hA : ∀ t i, TInv c t → TInv c (Table.applyAt c now t i)) :
+    ∀ (ds : List Nat) (t : Table V) (count : Nat), TInv c t →
+      TInv c (applyForDistances c now m ds t count) ∧
+      (applyForDistances c now m ds t count).localKey = t.localKey := by
+  intro ds
+  induction ds with
+  | nil => intro t count h; exact ⟨h, rfl⟩
+  | cons d ds ih =>
+    intro t count h
+    have hinv := hA t (d - 1) h
+    have hkey := applyAt_localKey c now t (d - 1)
+    unfold Table.applyAt at hinv hkey
+    unfold applyForDistances
+    simp only [] at hinv hkey ⊢
+    cases hp : ((t.bucket (d - 1)).applyPending c now t.tick) with
+    | mk b a =>
+      rw [hp] at hinv hkey
+      cases a with
+      | none =>
+        simp only [] at hinv hkey ⊢
+        obtain ⟨h1, h2⟩ := ih _ count hinv
+        exact ⟨h1, h2.trans hkey⟩
+      | some a =>
+        simp only [] at hinv hkey ⊢
+        split
+        · exact ⟨hinv, hkey⟩
+        · obtain ⟨h1, h2⟩ := ih _ (count + b.nodes.length) hinv
+          exact ⟨h1, h2.trans hkey⟩
+
+theorem validDistances_eq (ds : List Nat) :
+    validDistances ds = ds.filter (fun d => decide (1 ≤ d ∧ d ≤ 256)) := by
+  unfold validDistances
+  apply List.filter_congr
+  intro d _
+  simp only [numBuckets, Consts.NUM_BUCKETS, gt_iff_lt, Bool.decide_and]
+  rfl
+  
+theorem nodesByDistances_aux (c : Cfg V) (now : Nat) (t : Table V) (ds : List Nat) (maxNodes : Nat)
+    (hA : ∀ t i, TInv c t → TInv c (Table.applyAt c now t i))
+    (h : TInv c t) (hd : ds.Nodup) (hm : 1 ≤ maxNodes) :
+    (∀ n ∈ (t.nodesByDistances c now ds maxNodes).2, ∃ d ∈ ds, 1 ≤ d ∧ d ≤ 256 ∧
+        bucketIndex t.localKey n.key = some (d - 1)) ∧
+    (t.nodesByDistances c now ds maxNodes).2 =
+      ((ds.filter (fun d => 1 ≤ d ∧ d ≤ 256)).flatMap
+        (fun d => ((t.nodesByDistances c now ds maxNodes).1.bucket (d - 1)).nodes)).take maxNodes ∧
+    ((t.nodesByDistances c now ds maxNodes).2.map (·.key)).Nodup := by
+  obtain ⟨hT, hK⟩ := applyForDistances_spec c now maxNodes hA (validDistances ds) t.bump 0
+    (bump_tinv c t h)
+  have e1 : (t.nodesByDistances c now ds maxNodes).1 =
+      applyForDistances c now maxNodes (validDistances ds) t.bump 0 := rfl
+  have e2 : (t.nodesByDistances c now ds maxNodes).2 =
+      ((ds.filter (fun d => 1 ≤ d ∧ d ≤ 256)).flatMap
+        (fun d => ((t.nodesByDistances c now ds maxNodes).1.bucket (d - 1)).nodes)).take
+          maxNodes := by
+    rw [e1, ← validDistances_eq]
+    unfold Table.nodesByDistances
+    simp only []
+    rw [collectUpTo_eq _ _ _ (by simp only [List.length_nil]; omega)]
+    simp
+  rw [← e1] at hT hK
+  have hK' : (t.nodesByDistances c now ds maxNodes).1.localKey = t.localKey := hK
+  refine ⟨?_, e2, ?_⟩
+  · intro n hn
+    rw [e2] at hn
+    have hn := List.mem_of_mem_take hn
+    rw [List.mem_flatMap] at hn
+    obtain ⟨d, hd1, hd2⟩ := hn
+    rw [List.mem_filter, decide_eq_true_eq] at hd1
+    refine ⟨d, hd1.1, hd1.2.1, hd1.2.2, ?_⟩
+    rw [← hK']
+    exact hT.placed (d - 1) (by omega) n hd2
+  · rw [e2]
+    refine List.Nodup.sublist ((List.take_sublist _ _).map _) ?_
+    rw [List.map_flatMap, List.nodup_iff_pairwise_ne, List.pairwise_flatMap]
+    constructor
+    · intro d hd1
+      rw [List.mem_filter, decide_eq_true_eq] at hd1
+      exact (hT.buckets (d - 1) (by omega)).keysNodup
+    · have hd' : (ds.filter (fun d => decide (1 ≤ d ∧ d ≤ 256))).Pairwise (· ≠ ·) :=
+        List.Pairwise.filter _ hd
+      refine hd'.imp_of_mem ?_
+      intro d d' hd1 hd2 hne x hx y hy e
+      rw [List.mem_filter, decide_eq_true_eq] at hd1 hd2
+      rw [List.mem_map] at hx hy
+      obtain ⟨nx, hnx, rfl⟩ := hx
+      obtain ⟨ny, hny, rfl⟩ := hy
+      have px := hT.placed (d - 1) (by omega) nx hnx
+      have py := hT.placed (d' - 1) (by omega) ny hny
+      rw [e, py] at px
+      injection px with px
+      omega
 
 end Discv5.KB
